@@ -360,7 +360,7 @@ func random(e *vlib.Env) vlib.Result {
 	res.Sig = vlib.Sig(shape, ctl.Fingerprint())
 	cd := rn.Close(1)
 	if o, _ := vlib.WaitClosed(cd, vlib.WD); o == vlib.Done {
-		vlib.WaitClosed(rn.ConsumersDone(), vlib.WD)
+		vlib.WaitUntil(rn.ConsumersIdle, vlib.WD)
 	}
 	return res
 }
